@@ -23,6 +23,7 @@ type inliner struct {
 	depth   int
 	lits    []*Fn
 	inlined []string
+	alias   map[types.Object]aliasTo
 }
 
 // callSites counts static call sites of each declared function inside first-party code.
@@ -79,8 +80,29 @@ func (p *Prog) Inl(fn *Fn) *Fn {
 	view := fn
 	if body != fn.Body {
 		view = &Fn{Name: fn.Name, Obj: fn.Obj, Decl: fn.Decl, Lit: fn.Lit, Parent: fn.Parent, Body: body, Type: fn.Type, Pkg: fn.Pkg,
-			Lits: append(append([]*Fn{}, fn.Lits...), il.lits...), Orig: fn, Inlined: il.inlined}
+			Lits: append(append([]*Fn{}, fn.Lits...), il.lits...), Orig: fn, Inlined: il.inlined, Alias: il.alias}
 		view.CFG = cfg.New(body, func(c *ast.CallExpr) bool { return p.mayReturn(fn.Pkg, c) })
+		if p.viewOf == nil {
+			p.viewOf = map[*Fn]*Fn{}
+		}
+		for _, l := range il.lits {
+			for _, sub := range AllFnsUnder(l) {
+				p.viewOf[sub] = view
+			}
+		}
+		view.Parents = map[ast.Node]ast.Node{}
+		var stack []ast.Node
+		ast.Inspect(body, func(n ast.Node) bool {
+			if n == nil {
+				stack = stack[:len(stack)-1]
+				return true
+			}
+			if len(stack) > 0 {
+				view.Parents[n] = stack[len(stack)-1]
+			}
+			stack = append(stack, n)
+			return true
+		})
 	}
 	p.inlViews[fn] = view
 	return view
@@ -263,8 +285,10 @@ func (il *inliner) splice(call *ast.CallExpr, lhs []ast.Expr, tok token.Token, c
 	if h == nil || h.Decl == nil || h == il.root || h.Pkg != il.root.Pkg || ast.IsExported(f.Name()) {
 		return nil
 	}
-	if p.callSiteCounts()[f] != 1 || call.Ellipsis.IsValid() {
+	if n := p.callSiteCounts()[f]; n < 1 || n > 3 || call.Ellipsis.IsValid() {
 		return nil
+	} else if n > 1 && !il.smallLeaf(h) {
+		return nil // a helper shared by several callers is only looked through when it is a small leaf
 	}
 	sig := f.Type().(*types.Signature)
 	if sig.Variadic() {
@@ -346,16 +370,21 @@ func (il *inliner) bindAlias(param *ast.Ident, arg ast.Expr, h, ctx *Fn) {
 		return
 	}
 	if root, key, ok := p.PathKey(ctx, arg); ok {
-		if p.alias == nil {
-			p.alias = map[types.Object]aliasTo{}
+		if il.alias == nil {
+			il.alias = map[types.Object]aliasTo{}
 		}
-		p.alias[po] = aliasTo{root, key}
+		if old, seen := il.alias[po]; seen && (old.root != root || old.key != key) {
+			il.alias[po] = aliasTo{} // bound differently at two call sites inside one view: no alias
+		} else {
+			il.alias[po] = aliasTo{root, key, arg}
+		}
 	}
 }
 
 type aliasTo struct {
 	root types.Object
 	key  string
+	expr ast.Expr // the caller's argument expression
 }
 
 // AllViews: fn and all literals nested in it, each as a helper-transparent view.
@@ -376,4 +405,43 @@ func (p *Prog) AllViews(fn *Fn) []*Fn {
 	}
 	add(fn)
 	return out
+}
+
+// CanonObj resolves an identifier to its object and, in a helper-transparent view, a never-reassigned helper
+// parameter to the caller's variable it was bound to (so that "the same collection" means the same variable on
+// both sides of an extracted helper).
+func (p *Prog) CanonObj(fn *Fn, id *ast.Ident) types.Object {
+	o := p.ObjOf(fn, id)
+	for i := 0; i < 4 && o != nil; i++ {
+		a, ok := p.aliasOf(fn)[o]
+		if !ok || a.root == nil || a.key != p.ID(a.root) {
+			break
+		}
+		o = a.root
+	}
+	return o
+}
+
+// smallLeaf: a short helper whose body calls no first-party function (only methods through interfaces,
+// builtins and library code) and contains no function literal — e.g. a loop that files an entry under each of
+// its predecessor links. Rules anchored on first-party calls are then never affected by looking through it.
+func (il *inliner) smallLeaf(h *Fn) bool {
+	p := il.p
+	n := 0
+	ok := true
+	ast.Inspect(h.Body, func(nd ast.Node) bool {
+		switch x := nd.(type) {
+		case ast.Stmt:
+			n++
+		case *ast.FuncLit:
+			ok = false
+		case *ast.CallExpr:
+			if f := p.Callee(h, x); f != nil && p.ByObj[f] != nil {
+				ok = false
+			}
+		}
+		return ok
+	})
+	sig, _ := h.Obj.Type().(*types.Signature)
+	return ok && n <= 14 && sig != nil && sig.Results().Len() == 0 // a procedure: nothing flows back that a rule could be anchored on
 }
